@@ -116,3 +116,23 @@ func TestSkipValueNumber(t *testing.T) {
 		}
 	}
 }
+
+func TestDecodeValueString(t *testing.T) {
+	for in, exp := range map[string]int{
+		`"abc" `:  5,
+		`"a\"b"`:  6,
+		`""`:      2,
+		`"`:       -int(types.ERR_EOF),
+		`"abc`:    -int(types.ERR_EOF),
+		`"abc\"`:  -int(types.ERR_EOF),
+		`"abc\`:   -int(types.ERR_EOF),
+		`"abc\\"`: 7,
+	} {
+		if ret, _ := DecodeValue(in, 0); ret != exp {
+			t.Fatalf("%q: ret %d, expected %d", in, ret, exp)
+		}
+		if ret, _ := SkipValue(in, 0); ret != exp {
+			t.Fatalf("%q: ret %d, expected %d", in, ret, exp)
+		}
+	}
+}
